@@ -1,5 +1,5 @@
 (* C04 - Descriptor views agree with the Go protobuf runtime.  Statements only; proofs are in Proofs/Features.v. *)
-From Coq Require Import List NArith Bool.
+From Coq Require Import List NArith ZArith Bool String.
 From PV Require Import Model.FeaturesTables Model.Features Model.FieldView Model.RuntimeSpec Proofs.Features.
 Import ListNotations.
 Open Scope N_scope.
@@ -76,6 +76,21 @@ Theorem C04_required_numbers_eq_runtime : forall fields,
 Proof. exact required_numbers_eq_runtime_lemma. Qed.
 Print Assumptions C04_required_numbers_eq_runtime.
 
+(* Default() of a singular field of an integer kind (int32 .. sfixed64): for every number z in the range of the
+   kind, if default_value holds the decimal text of z then the linker's Default() is z; and whatever the text,
+   it is what the runtime reads from it whenever the runtime accepts the file. (The defaults of the other
+   kinds are compared linker-vs-runtime by the direct oracle only.) *)
+Theorem C04_default_int_of_rendered : forall k signed bits z,
+  int_kind k = Some (signed, bits) -> int_in_range signed bits z = true ->
+  default_int k (Some (render_int z)) = z.
+Proof. exact default_int_of_rendered_lemma. Qed.
+Print Assumptions C04_default_int_of_rendered.
+
+Theorem C04_default_int_eq_runtime : forall k text v,
+  rt_default_int k text = Some v -> default_int k text = v.
+Proof. exact default_int_eq_runtime_lemma. Qed.
+Print Assumptions C04_default_int_eq_runtime.
+
 (* The code before the repairs (IsClosed == CLOSED, RequiredNumbers by label) is refuted in Proofs/Features.v:
    is_closed_old_eq_runtime_refuted_lemma, required_numbers_old_eq_runtime_refuted_lemma (with the partial
    results it did satisfy). *)
@@ -90,4 +105,11 @@ Example C04_nonvacuous :
                    (CFile (mkfs (Some FP_EXPLICIT) None None None None None))))) in
   wf_field f = true /\ has_presence f = false /\ rt_has_presence f = false /\
   cardinality f = CARD_OPTIONAL /\ f_resolve f MessageEncoding = ME_DELIMITED.
+Proof. vm_compute. repeat split; reflexivity. Qed.
+
+Example C04_nonvacuous_default :
+  default_int KIND_UINT64 (Some "18446744073709551615"%string) = 18446744073709551615%Z /\
+  render_int (-9223372036854775808) = "-9223372036854775808"%string /\
+  default_int KIND_SFIXED64 (Some (render_int (-9223372036854775808))) = (-9223372036854775808)%Z /\
+  default_int KIND_UINT32 (Some "4294967296"%string) = 0%Z.
 Proof. vm_compute. repeat split; reflexivity. Qed.
